@@ -40,7 +40,7 @@
 //   - A worker that panics is recovered: the thread counts as finished, the panic value is reported in
 //     `Thread.Panic`, the other threads go on. `runtime.Goexit` in a worker is handled the same way.
 //   - The scheduler never blocks for ever: if a granted worker neither reaches a yield point nor
-//     finishes within `Options.StepTimeout` (default 10 s; only possible if it blocks on something a
+//     finishes within `Options.StepTimeout` (default 5 min; only possible if it blocks on something a
 //     parked worker holds — the hooks are never placed inside a critical section — or loops), Run
 //     stops scheduling, marks the thread `Stuck`, sets `Report.Err` and returns; such goroutines are
 //     abandoned (they stay parked or blocked), never released concurrently with another worker.
@@ -130,7 +130,7 @@ type Options struct {
 	BeforeStart func(tid int)   // before worker tid is advanced to its first yield point
 	OnTick      func(ns uint64) // for every tick entry of the schedule
 	AfterStep   func(s Step)    // after every granted step (no worker is running)
-	StepTimeout time.Duration   // watchdog per step; default 10 s
+	StepTimeout time.Duration   // watchdog per step; default 5 min
 	MaxSteps    int             // safety bound on the total number of granted steps; default 1e6
 }
 
@@ -201,7 +201,7 @@ func Run(workers []func(), schedule []Entry, opt Options) *Report {
 	runMu.Lock()
 	defer runMu.Unlock()
 	if opt.StepTimeout <= 0 {
-		opt.StepTimeout = 10 * time.Second
+		opt.StepTimeout = 5 * time.Minute // generous: a loaded or paused sandbox must not look like a stuck thread
 	}
 	if opt.MaxSteps <= 0 {
 		opt.MaxSteps = 1000000
